@@ -5,6 +5,7 @@
 -/
 import Rox.Parse
 import Rox.Lemmas.Size
+import Rox.Lemmas.PosIndep
 
 namespace Rox.Lemmas
 open Rox
@@ -1171,8 +1172,11 @@ def shC (k : Nat) (c : Ctx) : Ctx :=
            tagName := shTag k c.tagName,
            trace := c.trace.map (shEv k) }
 
-/-- entry 0 of the namespace table exists (it is what `shiftNsValues` leaves alone) -/
-def NZ (c : Ctx) : Prop := 0 < c.doc.ns.values.size
+/-- the invariant the simulation needs of the original run: entry 0 of the namespace table exists
+(it is what `shiftNsValues` leaves alone), and the `positions` flag is the one of the options -/
+def NZ (pos : Bool) (c : Ctx) : Prop := 0 < c.doc.ns.values.size ∧ c.positions = pos
+
+variable {pos : Bool}
 
 @[simp] theorem shC_positions (k : Nat) (c : Ctx) : (shC k c).positions = c.positions := rfl
 @[simp] theorem shC_doc (k : Nat) (c : Ctx) : (shC k c).doc = shiftDoc k c.positions c.doc := rfl
@@ -1264,8 +1268,1051 @@ theorem shiftNsValues_push (k : Nat) (vs : Array Namespace) (v : Namespace) (h :
   have : vs.size ≠ 0 := by omega
   simp [this, shNs]
 
+/-! #### slices of the two texts -/
+
+/-- the only relation between the two texts that the builder needs -/
+def SliceSh (k : Nat) (txt txt' : Bytes) : Prop :=
+  ∀ a b, sliceBytes txt' (a + k) (b + k) = sliceBytes txt a b
+
+theorem sliceSh_ws (k : Nat) (txt : Bytes) : SliceSh k txt (List.replicate k 32 ++ txt) := by
+  intro a b
+  unfold sliceBytes
+  have h1 : (List.replicate k 32 ++ txt).drop (a + k) = txt.drop a := by
+    rw [List.drop_append]
+    simp
+  rw [h1, Nat.add_sub_add_right]
+
+theorem ofRange_sh {k : Nat} {txt txt' : Bytes} (h : SliceSh k txt txt') (a b : Nat) :
+    Stream.ofRange txt' (a + k) (b + k) = sh k (Stream.ofRange txt a b) := by
+  simp only [Stream.ofRange, sh, h a b]
+
+theorem tokenizeContent_sh (T : Tables) {k : Nat} {txt txt' : Bytes} (h : SliceSh k txt txt') (a b : Nat) :
+    SimT k (sh k) (tokenizeContent T txt a b) (tokenizeContent T txt' (a + k) (b + k)) := by
+  unfold tokenizeContent
+  simp only [ofRange_sh h, sh_rest]
+  exact parseContent_sh T k txt txt' _ _ _
+
+/-! #### nodes -/
+
+theorem ite_inst_irrel {α} {p : Prop} (i1 i2 : Decidable p) (a b : α) :
+    @ite α p i1 a b = @ite α p i2 a b := by
+  congr
+
+theorem nodeAt_sh (k : Nat) (c : Ctx) (i : Nat) :
+    OkTo (shiftNode k c.positions) (c.nodeAt i) ((shC k c).nodeAt i) := by
+  unfold Ctx.nodeAt
+  simp only [shC_doc, shiftDoc_nodes, Array.getElem?_map]
+  cases c.doc.nodes[i]? with
+  | none => exact Sim.panic
+  | some n => exact OkTo.ok rfl
+
+theorem setNode_sh (k : Nat) (c : Ctx) (i : Nat) (n : NodeData) :
+    (shC k c).setNode i (shiftNode k c.positions n) = shC k (c.setNode i n) := by
+  simp only [Ctx.setNode, shC, shiftDoc, Array.map_setIfInBounds]
+
+theorem setNextSubtree_sh (k : Nat) (b : Bool) (new : Nat) (l : List Nat) (nodes : Array NodeData) :
+    OkTo (·.map (shiftNode k b)) (Ctx.setNextSubtree nodes new l)
+      (Ctx.setNextSubtree (nodes.map (shiftNode k b)) new l) := by
+  induction l generalizing nodes with
+  | nil => exact OkTo.ok rfl
+  | cons id r ih =>
+    simp only [Ctx.setNextSubtree, Array.getElem?_map]
+    cases h : nodes[id]? with
+    | none => exact Sim.panic
+    | some n =>
+      simp only [Option.map_some]
+      have := ih (nodes.setIfInBounds id { n with nextSubtree := some new })
+      simp only [Array.map_setIfInBounds] at this
+      exact this
+
+theorem set_sh (k : Nat) (b : Bool) (arr : Array NodeData) (i : Nat) (m m' : NodeData)
+    (h : m = shiftNode k b m') :
+    (arr.map (shiftNode k b)).setIfInBounds i m = (arr.setIfInBounds i m').map (shiftNode k b) := by
+  rw [Array.map_setIfInBounds, h]
+
+theorem shiftNode_new (k : Nat) (b : Bool) (parent : Option Nat) (kind : Kind) (range : Range)
+    (hk : kind.isRoot = false) :
+    shiftNode k b { parent := parent, prevSibling := none, nextSubtree := none, lastChild := none,
+                    kind := kind, range := if b = true then range else (0, 0) } =
+      { parent := parent, prevSibling := none, nextSubtree := none, lastChild := none,
+        kind := shiftKind k kind, range := if b = true then shiftRange k range else (0, 0) } := by
+  cases b <;> cases kind <;> simp [shiftNode, Kind.isRoot] at hk ⊢
+
+theorem appendNode_sh (k : Nat) (c : Ctx) (kind : Kind) (range : Range) (hk : kind.isRoot = false)
+    (hnz : NZ pos c) :
+    Sim (fun p => NZ pos p.1) (fun p => (shC k p.1, p.2)) (c.appendNode kind range)
+      ((shC k c).appendNode (shiftKind k kind) (shiftRange k range)) := by
+  unfold Ctx.appendNode
+  dsimp only [shC_doc, shiftDoc_nodes, shC_nodesLimit, shC_positions, shC_parentId, shC_awaiting]
+  simp only [Array.size_map, shiftKind_isElement]
+  refine Sim.ite (fun _ => Sim.err) (fun _ => ?_)
+  refine Sim.bind (f := fun n : Nat => n) (I := fun _ => True) (fun a ha => ⟨trivial, ha⟩)
+    (fun newId _ _ => ?_)
+  rw [ite_inst_irrel (p := c.positions = true) (instDecidableEqBool (shC k c).positions true)
+      (instDecidableEqBool c.positions true),
+    ← shiftNode_new k c.positions (some c.parentId) kind range hk, ← Array.map_push]
+  generalize c.doc.nodes.push _ = nodes
+  simp only [Array.getElem?_map]
+  cases nodes[c.parentId]? with
+  | none => exact Sim.panic
+  | some p =>
+    cases nodes[newId]? with
+    | none => exact Sim.panic
+    | some n =>
+      simp only [Option.map_some]
+      rw [set_sh (m' := { n with prevSibling := p.lastChild })]
+      rotate_left
+      · rfl
+      generalize nodes.setIfInBounds newId _ = nodes2
+      simp only [Array.getElem?_map]
+      cases nodes2[c.parentId]? with
+      | none => exact Sim.panic
+      | some p2 =>
+        simp only [Option.map_some]
+        rw [set_sh (m' := { p2 with lastChild := some newId })]
+        rotate_left
+        · rfl
+        refine Sim.bind (setNextSubtree_sh k c.positions _ _ _) (fun nodes3 _ _ => ?_)
+        exact Sim.pure hnz rfl
+
+theorem log_sh (k : Nat) (c : Ctx) (e : Ev) : (shC k c).log (shEv k e) = shC k (c.log e) := rfl
+
+theorem appendText_sh (k : Nat) (c : Ctx) (text : Str) (range : Range) (hnz : NZ pos c) :
+    Sim (NZ pos) (shC k) (c.appendText text range)
+      ((shC k c).appendText (shiftStr k text) (shiftRange k range)) := by
+  unfold Ctx.appendText
+  dsimp only
+  have hl := log_sh k c (.textFragment text range)
+  simp only [shEv] at hl
+  rw [hl]
+  have hnz' : NZ pos (c.log (.textFragment text range)) := hnz
+  generalize c.log _ = c' at hnz' ⊢
+  simp only [shC_afterText, isEmpty_map]
+  refine Sim.ite (fun _ => ?_) (fun _ => ?_)
+  · refine Sim.bind (appendNode_sh k c' (.text text) range rfl hnz') (fun a _ ha => ?_)
+    refine Sim.pure ha ?_
+    simp only [shC, List.map_append, List.map_cons, List.map_nil]
+  · refine Sim.pure hnz' ?_
+    simp only [shC, List.map_append, List.map_cons, List.map_nil]
+
+theorem mergeText_sh (k : Nat) (c : Ctx) (hnz : NZ pos c) :
+    Sim (NZ pos) (shC k) c.mergeText (shC k c).mergeText := by
+  unfold Ctx.mergeText
+  simp only [shC_doc, shiftDoc_nodes, Array.size_map, Array.getElem?_map, shC_afterText,
+    map_shiftStr_bytes]
+  refine Sim.ite (fun _ => Sim.panic) (fun _ => ?_)
+  cases c.doc.nodes[c.doc.nodes.size - 1]? with
+  | none => exact Sim.panic
+  | some n =>
+    simp only [Option.map_some, shiftNode_kind]
+    cases hk : n.kind <;> simp only [shiftKind] <;> try exact Sim.panic
+    refine Sim.ok hnz ?_
+    rw [← setNode_sh]
+    congr 1
+    simp only [shiftNode, hk, shiftKind, shiftStr]
+
+theorem resetAfterText_sh (k : Nat) (c : Ctx) (hnz : NZ pos c) :
+    Sim (NZ pos) (shC k) c.resetAfterText (shC k c).resetAfterText := by
+  unfold Ctx.resetAfterText
+  simp only [shC_afterText, isEmpty_map, List.length_map]
+  refine Sim.ite (fun _ => OkTo.ok rfl |>.weaken (fun _ h _ => by cases h; exact hnz)) (fun _ => ?_)
+  refine Sim.ite (fun _ => ?_) (fun _ => Sim.pure hnz rfl)
+  exact Sim.bind (mergeText_sh k c hnz) (fun c1 _ h1 => Sim.pure h1 rfl)
+
+/-! #### namespaces and attributes -/
+
+theorem searchGo_sh (k : Nat) (ns : Namespaces) (name : Option Bytes) (uri : Bytes) :
+    ∀ (fuel i : Nat), (shNss k ns).searchGo name uri fuel i = ns.searchGo name uri fuel i := by
+  intro fuel
+  induction fuel with
+  | zero => intro i; rfl
+  | succ fuel ih =>
+    intro i
+    simp only [Namespaces.searchGo, shNss_sortedOrder, shNss_values, shiftNsValues_getElem?]
+    cases ns.sortedOrder[i]? with
+    | none => rfl
+    | some vi =>
+      dsimp only
+      cases ns.values[vi]? with
+      | none => rfl
+      | some v =>
+        simp only [Option.map_some, shNsAt_nameBytes, shNsAt_uriBytes, ih]
+
+theorem pushNs_sh (k : Nat) (ns : Namespaces) (name : Option Span) (uri : Str) (hnz : 0 < ns.values.size) :
+    Sim (fun ns' : Namespaces => 0 < ns'.values.size) (shNss k) (ns.pushNs name uri)
+      ((shNss k ns).pushNs (name.map (shiftSpan k)) (shiftStr k uri)) := by
+  unfold Namespaces.pushNs Namespaces.search
+  have hname : Option.map (fun x : Span => x.bytes) (Option.map (shiftSpan k) name) =
+      Option.map (fun x : Span => x.bytes) name := by
+    cases name <;> rfl
+  simp only [searchGo_sh, shNss_sortedOrder, shNss_values, shiftNsValues_size, shiftStr_bytes, hname,
+    shNss_treeOrder]
+  refine Sim.bind (f := fun q : Nat × Bool => q) (I := fun _ => True) (fun a ha => ⟨trivial, ha⟩)
+    (fun q _ _ => ?_)
+  obtain ⟨si, found⟩ := q
+  dsimp only
+  refine Sim.ite (fun _ => ?_) (fun _ => ?_)
+  · cases ns.sortedOrder[si]? with
+    | none => exact Sim.panic
+    | some idx => exact Sim.pure hnz rfl
+  · refine Sim.ite (fun _ => Sim.err) (fun _ => ?_)
+    refine Sim.pure (by simp) ?_
+    simp only [shNss, shiftNsValues_push k _ _ hnz]
+    rfl
+
+theorem pushRef_sh (k : Nat) (ns : Namespaces) (i : Nat) :
+    OkTo (shNss k) (ns.pushRef i) ((shNss k ns).pushRef i) := by
+  unfold Namespaces.pushRef
+  simp only [shNss_treeOrder]
+  cases ns.treeOrder[i]? with
+  | none => exact Sim.panic
+  | some idx => exact OkTo.ok rfl
+
+theorem existsAux_sh (k : Nat) (vs : Array Namespace) (pfx : Option Bytes) (l : List Nat) :
+    Namespaces.existsAux (shiftNsValues k vs) pfx l = Namespaces.existsAux vs pfx l := by
+  induction l with
+  | nil => rfl
+  | cons idx r ih =>
+    simp only [Namespaces.existsAux, shiftNsValues_getElem?]
+    cases vs[idx]? with
+    | none => rfl
+    | some v => simp only [Option.map_some, shNsAt_nameBytes, ih]
+
+theorem exists_sh (k : Nat) (ns : Namespaces) (start : Nat) (pfx : Option Bytes) :
+    (shNss k ns).exists start pfx = ns.exists start pfx := by
+  unfold Namespaces.exists
+  simp only [shNss_treeOrder, shNss_values, existsAux_sh]
+
+theorem find_sh (k : Nat) (b : Bool) (d : Doc) (p : Option Bytes) (l : List Nat) :
+    getNsIdxByPrefix.find (shiftDoc k b d) p l = getNsIdxByPrefix.find d p l := by
+  induction l with
+  | nil => rfl
+  | cons i r ih =>
+    simp only [getNsIdxByPrefix.find, shiftDoc_ns, shNss_values, shiftNsValues_getElem?]
+    cases d.ns.values[i]? with
+    | none => rfl
+    | some v => simp only [Option.map_some, shNsAt_nameBytes, ih]
+
+theorem getNsIdxByPrefix_sh (k : Nat) (txt txt' : Bytes) (b : Bool) (d : Doc) (nss : Range)
+    (pp pp' : Nat) (pfx : Bytes) :
+    OkTo (fun r : Option Nat => r) (getNsIdxByPrefix txt d nss pp pfx)
+      (getNsIdxByPrefix txt' (shiftDoc k b d) nss pp' pfx) := by
+  unfold getNsIdxByPrefix
+  simp only [shiftDoc_ns, shNss_treeOrder, find_sh]
+  refine Sim.ite (fun _ => OkTo.ok rfl) (fun _ => ?_)
+  refine Sim.ite (fun _ => Sim.panic) (fun _ => ?_)
+  refine Sim.bind (f := fun r : Option Nat => r) (I := fun _ => True) (fun a ha => ⟨trivial, ha⟩)
+    (fun r _ _ => ?_)
+  cases r with
+  | some idx => exact Sim.pure trivial rfl
+  | none => exact Sim.ite (fun _ => Sim.errPos) (fun _ => Sim.pure trivial rfl)
+
+theorem inheritLoop_sh (k : Nat) (startIdx : Nat) (l : List Nat) (ns : Namespaces) :
+    OkTo (shNss k) (inheritLoop startIdx l ns) (inheritLoop startIdx l (shNss k ns)) := by
+  induction l generalizing ns with
+  | nil => exact OkTo.ok rfl
+  | cons i r ih =>
+    simp only [inheritLoop, shNss_treeOrder, shNss_values, shiftNsValues_getElem?]
+    cases ns.treeOrder[i]? with
+    | none => exact Sim.panic
+    | some vi =>
+      dsimp only
+      cases ns.values[vi]? with
+      | none => exact Sim.panic
+      | some v =>
+        simp only [Option.map_some, shNsAt_nameBytes]
+        rw [exists_sh k ns startIdx v.nameBytes]
+        refine Sim.bind (f := fun b : Bool => b) (I := fun _ => True) (fun a ha => ⟨trivial, ha⟩)
+          (fun ex _ _ => ?_)
+        refine Sim.ite (fun _ => ?_) (fun _ => ih ns)
+        exact Sim.bind (pushRef_sh k ns i) (fun ns1 _ _ => ih ns1)
+
+theorem inheritLoop_values' (st : Nat) : ∀ (l : List Nat) (ns ns' : Namespaces),
+    inheritLoop st l ns = .ok ns' → ns'.values = ns.values := by
+  intro l
+  induction l with
+  | nil => intro ns ns' h; simp only [inheritLoop, Res.ok.injEq] at h; rw [← h]
+  | cons i r ih =>
+    intro ns ns' h
+    simp only [inheritLoop] at h
+    split at h
+    · cases h
+    · split at h
+      · cases h
+      · rw [Res.bind_eq_ok] at h
+        obtain ⟨ex, _, h⟩ := h
+        split at h
+        · rw [Res.bind_eq_ok] at h
+          obtain ⟨ns1, h1, h⟩ := h
+          rw [ih _ _ h]
+          unfold Namespaces.pushRef at h1
+          split at h1
+          · simp only [Res.ok.injEq] at h1; rw [← h1]
+          · cases h1
+        · exact ih _ _ h
+
+theorem resolveNamespaces_sh (k : Nat) (c : Ctx) (hnz : NZ pos c) :
+    Sim (fun p => NZ pos p.1 ∧ p.1.tagName = c.tagName) (fun p => (shC k p.1, p.2)) (resolveNamespaces c)
+      (resolveNamespaces (shC k c)) := by
+  unfold resolveNamespaces
+  refine Sim.bind (nodeAt_sh k c c.parentId) (fun p _ _ => ?_)
+  simp only [shiftNode_kind]
+  cases p.kind with
+  | element a b c' parentNs =>
+    simp only [shiftKind, shC_nsStartIdx, shC_doc, shiftDoc_ns, shNss_treeOrder]
+    refine Sim.ite (fun _ => Sim.pure ⟨hnz, rfl⟩ rfl) (fun _ => ?_)
+    refine Sim.bind (inheritLoop_sh k _ _ c.doc.ns) (fun ns hns _ => ?_)
+    refine Sim.pure ⟨⟨?_, hnz.2⟩, rfl⟩ rfl
+    have := inheritLoop_values' _ _ _ _ hns
+    show 0 < ns.values.size
+    rw [this]; exact hnz.1
+  | root => exact Sim.pure ⟨hnz, rfl⟩ rfl
+  | pi a b => exact Sim.pure ⟨hnz, rfl⟩ rfl
+  | comment a => exact Sim.pure ⟨hnz, rfl⟩ rfl
+  | text a => exact Sim.pure ⟨hnz, rfl⟩ rfl
+
+theorem expandedName_sh (k : Nat) (b : Bool) (d : Doc) (nsIdx : Option Nat) (loc : Span) :
+    Api.expandedName (shiftDoc k b d) nsIdx (shiftSpan k loc) = Api.expandedName d nsIdx loc := by
+  unfold Api.expandedName Api.nsByIdx
+  cases nsIdx with
+  | none => rfl
+  | some vi =>
+    simp only [shiftDoc_ns, shNss_values, shiftNsValues_getElem?, shiftSpan_bytes]
+    cases d.ns.values[vi]? with
+    | none => rfl
+    | some v => simp only [Option.map_some, Res.bind_ok, shNsAt_uriBytes]
+
+theorem attrExpanded_sh (k : Nat) (b : Bool) (d : Doc) (i : Nat) :
+    Api.attrExpanded (shiftDoc k b d) i = Api.attrExpanded d i := by
+  unfold Api.attrExpanded Api.attrAt
+  simp only [shiftDoc_attrs, Array.getElem?_map]
+  cases d.attrs[i]? with
+  | none => rfl
+  | some a =>
+    simp only [Option.map_some, Res.bind_ok]
+    exact expandedName_sh k b d a.nsIdx a.localName
+
+theorem attrNsIdx_sh (k : Nat) (txt txt' : Bytes) (b : Bool) (d : Doc) (nss : Range) (a : TempAttr) :
+    OkTo (fun r : Option Nat => r) (attrNsIdx txt d nss a)
+      (attrNsIdx txt' (shiftDoc k b d) nss (shTA k a)) := by
+  unfold attrNsIdx
+  simp only [shTA, shiftSpan_bytes]
+  refine Sim.ite (fun _ => OkTo.ok rfl) (fun _ => ?_)
+  refine Sim.ite (fun _ => OkTo.ok rfl) (fun _ => ?_)
+  exact getNsIdxByPrefix_sh k txt txt' b d nss _ _ _
+
+theorem resolveAttrsLoop_sh (k : Nat) (txt txt' : Bytes) (pos : Bool) (nss : Range) (startIdx : Nat)
+    (l : List TempAttr) (d : Doc) :
+    OkTo (shiftDoc k pos) (resolveAttrsLoop txt pos nss startIdx l d)
+      (resolveAttrsLoop txt' pos nss startIdx (l.map (shTA k)) (shiftDoc k pos d)) := by
+  induction l generalizing d with
+  | nil => exact OkTo.ok rfl
+  | cons a r ih =>
+    simp only [List.map_cons, resolveAttrsLoop]
+    refine Sim.bind (attrNsIdx_sh k txt txt' pos d nss a) (fun nsIdx _ _ => ?_)
+    have hloc : (shTA k a).loc = shiftSpan k a.loc := rfl
+    simp only [hloc, expandedName_sh, attrExpanded_sh, shiftDoc_attrs, Array.size_map, shiftSpan_bytes]
+    refine Sim.bind (f := fun q : Option Bytes × Bytes => q) (I := fun _ => True)
+      (fun a ha => ⟨trivial, ha⟩) (fun en _ _ => ?_)
+    refine Sim.bind (f := fun q : Bool => q) (I := fun _ => True)
+      (fun a ha => ⟨trivial, ha⟩) (fun dup _ _ => ?_)
+    refine Sim.ite (fun _ => Sim.errPos) (fun _ => ?_)
+    have hval : (shTA k a).value = shiftStr k a.value := rfl
+    have hrange : (shTA k a).range = shiftRange k a.range := rfl
+    have hq : (shTA k a).qnameLen = a.qnameLen := rfl
+    have he : (shTA k a).eqLen = a.eqLen := rfl
+    simp only [hval, hrange, hq, he]
+    have had : ∀ ad : AttrData,
+        ({ nodes := (shiftDoc k pos d).nodes,
+           attrs := (d.attrs.map (shiftAttr k pos)).push (shiftAttr k pos ad),
+           ns := (shiftDoc k pos d).ns } : Doc) =
+          shiftDoc k pos { nodes := d.nodes, attrs := d.attrs.push ad, ns := d.ns } := by
+      intro ad
+      simp only [shiftDoc, Array.map_push]
+    cases pos
+    · simp only [Bool.false_eq_true, ↓reduceIte]
+      have := had { nsIdx := nsIdx, localName := a.loc, value := a.value, range := (0, 0),
+                    qnameLen := 0, eqLen := 0 }
+      simp only [shiftAttr, Bool.false_eq_true, ↓reduceIte] at this
+      rw [this]
+      exact ih _
+    · simp only [↓reduceIte]
+      have := had { nsIdx := nsIdx, localName := a.loc, value := a.value, range := a.range,
+                    qnameLen := a.qnameLen, eqLen := a.eqLen }
+      simp only [shiftAttr, ↓reduceIte] at this
+      rw [this]
+      exact ih _
+
+theorem resolveAttrsLoop_ns (txt : Bytes) (pos : Bool) (nss : Range) (st : Nat) :
+    ∀ (l : List TempAttr) (d d' : Doc), resolveAttrsLoop txt pos nss st l d = .ok d' →
+      d'.ns = d.ns := by
+  intro l
+  induction l with
+  | nil => intro d d' h; simp [resolveAttrsLoop] at h; subst h; rfl
+  | cons a r ih =>
+    intro d d' h
+    simp only [resolveAttrsLoop] at h
+    rw [Res.bind_eq_ok] at h
+    obtain ⟨nsIdx, _, h⟩ := h
+    rw [Res.bind_eq_ok] at h
+    obtain ⟨en, _, h⟩ := h
+    rw [Res.bind_eq_ok] at h
+    obtain ⟨dup, _, h⟩ := h
+    split at h
+    · exact absurd h (errPos_ne_ok _ _ _ _)
+    · have := ih _ _ h; simpa using this
+
+theorem resolveAttributes_sh (k : Nat) (txt txt' : Bytes) (c : Ctx) (nss : Range) (hnz : NZ pos c) :
+    Sim (fun p => NZ pos p.1 ∧ p.1.tagName = c.tagName) (fun p => (shC k p.1, p.2))
+      (resolveAttributes txt c nss)
+      (resolveAttributes txt' (shC k c) nss) := by
+  unfold resolveAttributes
+  simp only [shC_curAttrs, isEmpty_map, List.length_map, shC_doc, shiftDoc_attrs, Array.size_map,
+    shC_positions]
+  refine Sim.ite (fun _ => Sim.ok ⟨hnz, rfl⟩ rfl) (fun _ => ?_)
+  refine Sim.ite (fun _ => Sim.err) (fun _ => ?_)
+  refine Sim.bind (resolveAttrsLoop_sh k txt txt' c.positions nss _ _ c.doc) (fun d hd _ => ?_)
+  refine Sim.pure ⟨⟨?_, hnz.2⟩, rfl⟩ ?_
+  · show 0 < d.ns.values.size
+    rw [resolveAttrsLoop_ns _ _ _ _ _ _ _ hd]; exact hnz.1
+  · simp only [shiftDoc_attrs, Array.size_map]
+    rfl
+
+/-! #### elements -/
+
+@[simp] theorem shTag_name (k : Nat) (t : TagName) : (shTag k t).name = t.name := by
+  unfold shTag; split <;> rfl
+
+@[simp] theorem shTag_pfx (k : Nat) (t : TagName) : (shTag k t).pfx = t.pfx := by
+  unfold shTag; split <;> rfl
+
+theorem shTag_of_ne (k : Nat) (t : TagName) (h : ¬ t.name.isEmpty = true) :
+    shTag k t = { t with nameSpan := shiftSpan k t.nameSpan, pos := t.pos + k,
+                         prefixPos := t.prefixPos + k } := by
+  unfold shTag
+  have : t ≠ {} := by
+    intro ht; apply h; rw [ht]; rfl
+  simp only [this, ↓reduceIte]
+
+theorem processElement_sh (k : Nat) (txt txt' : Bytes) (c : Ctx) (e : EndKind) (tokRange : Range)
+    (hnz : NZ pos c) :
+    Sim (NZ pos) (shC k) (processElement txt c e tokRange)
+      (processElement txt' (shC k c) (shEnd k e) (shiftRange k tokRange)) := by
+  unfold processElement
+  simp only [shC_tagName, shTag_name]
+  refine Sim.ite (fun _ => ?_) (fun hne => ?_)
+  · cases e <;> simp only [shEnd] <;> first | exact Sim.errPos | exact Sim.panic
+  refine Sim.bind (resolveNamespaces_sh k c hnz) (fun a _ h1 => ?_)
+  obtain ⟨c1, nss⟩ := a
+  obtain ⟨h1, ht1⟩ := h1
+  dsimp only at h1 ht1 ⊢
+  have hnz1 : NZ pos { c1 with nsStartIdx := c1.doc.ns.treeOrder.size, xmlDeclared := false } := h1
+  refine Sim.bind (m' := resolveAttributes txt' _ nss)
+    (resolveAttributes_sh k txt txt'
+      { c1 with nsStartIdx := c1.doc.ns.treeOrder.size, xmlDeclared := false } nss hnz1)
+    (fun a _ h2 => ?_)
+  obtain ⟨c2, attrs⟩ := a
+  obtain ⟨h2, ht2⟩ := h2
+  dsimp only at h2 ht2 ⊢
+  have htag : c2.tagName = c.tagName := by rw [ht2, ht1]
+  have hne2 : ¬ c2.tagName.name.isEmpty = true := by rw [htag]; exact hne
+  have hsh := shTag_of_ne k c2.tagName hne2
+  cases e with
+  | empty =>
+    simp only [shEnd, shC_doc, shC_tagName, shTag_pfx]
+    refine Sim.bind (getNsIdxByPrefix_sh k txt txt' _ c2.doc nss _ _ _) (fun tagNs _ _ => ?_)
+    rw [hsh]
+    dsimp only
+    refine Sim.bind (appendNode_sh k c2 (.element tagNs c2.tagName.nameSpan attrs nss)
+      (c2.tagName.pos, tokRange.2) rfl h2) (fun a _ h3 => ?_)
+    obtain ⟨c3, newId⟩ := a
+    exact Sim.pure h3 rfl
+  | «open» =>
+    simp only [shEnd, shC_doc, shC_tagName, shTag_pfx]
+    refine Sim.bind (getNsIdxByPrefix_sh k txt txt' _ c2.doc nss _ _ _) (fun tagNs _ _ => ?_)
+    rw [hsh]
+    dsimp only
+    refine Sim.bind (appendNode_sh k c2 (.element tagNs c2.tagName.nameSpan attrs nss)
+      (c2.tagName.pos, tokRange.2) rfl h2) (fun a _ h3 => ?_)
+    obtain ⟨c3, newId⟩ := a
+    refine Sim.pure h3 ?_
+    dsimp only
+    rw [shC_tagName, shTag_pfx]
+    rfl
+  | close pfx loc =>
+    simp only [shEnd, shC_parentPrefixes, shC_entityFloor, shC_parentId, shiftSpan_bytes]
+    refine Sim.ite (fun _ => Sim.errPos) (fun _ => ?_)
+    refine Sim.bind (nodeAt_sh k c2 c2.parentId) (fun p _ _ => ?_)
+    cases c2.parentPrefixes with
+    | nil => exact Sim.panic
+    | cons parentPrefix restPrefixes =>
+      dsimp only
+      have hset : ∀ q : NodeData,
+          (shC k c2).setNode c2.parentId (shiftNode k c2.positions q) = shC k (c2.setNode c2.parentId q) :=
+        fun q => setNode_sh k c2 _ q
+      by_cases hpos : c2.positions = true
+      · simp only [shC_positions, hpos, ↓reduceIte]
+        have hq : ({ shiftNode k true p with
+              range := ((shiftNode k true p).range.1, (shiftRange k tokRange).2) } : NodeData) =
+            shiftNode k true { p with range := (p.range.1, tokRange.2) } := by
+          simp only [shiftNode, ↓reduceIte, shiftRange]
+          cases p.kind <;> rfl
+        rw [hpos] at hset
+        rw [hq, hset]
+        simp only [shiftNode_kind, shiftNode_parent]
+        cases p.kind with
+        | element a tn b c' =>
+          simp only [shiftKind, shiftSpan_bytes]
+          by_cases hc : (pfx.bytes != parentPrefix || loc.bytes != tn.bytes) = true
+          · simp only [hc, ↓reduceIte]; exact Sim.errPos
+          · simp only [hc, ↓reduceIte, Bool.false_eq_true]
+            cases p.parent with
+            | some id => exact Sim.pure h2 rfl
+            | none => exact Sim.errPos
+        | root =>
+          simp only [shiftKind]
+          cases p.parent with
+          | some id => exact Sim.pure h2 rfl
+          | none => exact Sim.errPos
+        | pi a b =>
+          simp only [shiftKind]
+          cases p.parent with
+          | some id => exact Sim.pure h2 rfl
+          | none => exact Sim.errPos
+        | comment a =>
+          simp only [shiftKind]
+          cases p.parent with
+          | some id => exact Sim.pure h2 rfl
+          | none => exact Sim.errPos
+        | text a =>
+          simp only [shiftKind]
+          cases p.parent with
+          | some id => exact Sim.pure h2 rfl
+          | none => exact Sim.errPos
+      · have hposf : c2.positions = false := by simpa using hpos
+        simp only [shC_positions, hposf, ↓reduceIte, Bool.false_eq_true]
+        rw [hposf] at hset
+        rw [hset]
+        simp only [shiftNode_kind, shiftNode_parent]
+        cases p.kind with
+        | element a tn b c' =>
+          simp only [shiftKind, shiftSpan_bytes]
+          by_cases hc : (pfx.bytes != parentPrefix || loc.bytes != tn.bytes) = true
+          · simp only [hc, ↓reduceIte]; exact Sim.errPos
+          · simp only [hc, ↓reduceIte, Bool.false_eq_true]
+            cases p.parent with
+            | some id => exact Sim.pure h2 rfl
+            | none => exact Sim.errPos
+        | root =>
+          simp only [shiftKind]
+          cases p.parent with
+          | some id => exact Sim.pure h2 rfl
+          | none => exact Sim.errPos
+        | pi a b =>
+          simp only [shiftKind]
+          cases p.parent with
+          | some id => exact Sim.pure h2 rfl
+          | none => exact Sim.errPos
+        | comment a =>
+          simp only [shiftKind]
+          cases p.parent with
+          | some id => exact Sim.pure h2 rfl
+          | none => exact Sim.errPos
+        | text a =>
+          simp only [shiftKind]
+          cases p.parent with
+          | some id => exact Sim.pure h2 rfl
+          | none => exact Sim.errPos
+
+/-! #### attribute values -/
+
+theorem findEntity_sh (k : Nat) (ents : List Entity) (name : Bytes) :
+    findEntity (ents.map (shEnt k)) name = (findEntity ents name).map (shEnt k) := by
+  unfold findEntity
+  induction ents with
+  | nil => rfl
+  | cons e r ih =>
+    simp only [List.map_cons, List.find?_cons]
+    have : (shEnt k e).name.bytes = e.name.bytes := rfl
+    rw [this]
+    cases (e.name.bytes == name) with
+    | true => rfl
+    | false => exact ih
+
+/-- the result of the attribute loop in the shifted run -/
+def shTr (k : Nat) (p : TextBuffer × LD × List Ev) : TextBuffer × LD × List Ev :=
+  (p.1, p.2.1, p.2.2.map (shEv k))
+
+theorem normAttrLoop_sh (T : Tables) (k : Nat) (txt txt' : Bytes) (ents : List Entity)
+    (rec rec' : Span → TextBuffer → LD → List Ev → Res (TextBuffer × LD × List Ev))
+    (hrec : ∀ sp buf ld tr, OkTo (shTr k) (rec sp buf ld tr)
+      (rec' (shiftSpan k sp) buf ld (tr.map (shEv k)))) :
+    ∀ (fuel : Nat) (s : Stream) (buf : TextBuffer) (ld : LD) (tr : List Ev),
+      OkTo (shTr k) (normAttrLoop T txt ents rec fuel s buf ld tr)
+        (normAttrLoop T txt' (ents.map (shEnt k)) rec' fuel (sh k s) buf ld (tr.map (shEv k))) := by
+  intro fuel
+  induction fuel with
+  | zero => intro s buf ld tr; exact Sim.fuel
+  | succ fuel ih =>
+    intro s buf ld tr
+    obtain ⟨p, r⟩ := s
+    cases r with
+    | nil => exact OkTo.ok rfl
+    | cons c r =>
+      simp only [normAttrLoop, sh_rest, sh_pos]
+      refine Sim.ite (fun _ => ?_) (fun _ => ?_)
+      · refine Sim.ite (fun _ => Sim.errAt) (fun _ => ?_)
+        rw [Nat.add_right_comm p k 1]
+        exact ih ⟨p + 1, r⟩ _ _ _
+      · have hcr := consumeReference_sh T k txt txt' ⟨p, c :: r⟩
+        cases hc : Stream.consumeReference T txt ⟨p, c :: r⟩ with
+        | err e => exact Sim.err
+        | panic e => exact Sim.panic
+        | fuel => exact Sim.fuel
+        | ok q =>
+          obtain ⟨s1, ref⟩ := q
+          cases ref with
+          | none => exact Sim.errFrom
+          | some x =>
+            rw [hcr s1 x hc]
+            simp only [Res.bind_ok]
+            cases x with
+            | char ch =>
+              simp only [shRef]
+              refine Sim.ite (fun _ => ?_) (fun _ => ih _ _ _ _)
+              exact Sim.ite (fun _ => Sim.errFrom) (fun _ => ih _ _ _ _)
+            | entity name =>
+              simp only [shRef, shiftSpan_bytes, findEntity_sh]
+              cases findEntity ents name.bytes with
+              | none => exact Sim.errFrom
+              | some ent =>
+                simp only [Option.map_some]
+                cases ld.incRefs with
+                | none => exact Sim.errAt
+                | some ld1 =>
+                  dsimp only
+                  cases ld1.incDepth with
+                  | none => exact Sim.errAt
+                  | some ld2 =>
+                    dsimp only
+                    refine Sim.bind (skipXmlChars_sh T k txt txt' ⟨ent.value.off, ent.value.bytes⟩)
+                      (fun _ _ _ => ?_)
+                    refine Sim.bind (hrec ent.value buf ld2
+                      (Ev.loop 1 true ld2.depth ld2.refs :: Ev.loop 0 true ld1.depth ld1.refs :: tr))
+                      (fun a _ _ => ?_)
+                    obtain ⟨buf3, ld3, tr3⟩ := a
+                    exact ih s1 buf3 ld3.decDepth
+                      (Ev.loop 2 true ld3.decDepth.depth ld3.decDepth.refs :: tr3)
+
+theorem normAttrRec_sh (T : Tables) (k : Nat) (txt txt' : Bytes) (ents : List Entity) :
+    ∀ (d : Nat) (text : Span) (buf : TextBuffer) (ld : LD) (tr : List Ev),
+      OkTo (shTr k) (normAttrRec T txt ents d text buf ld tr)
+        (normAttrRec T txt' (ents.map (shEnt k)) d (shiftSpan k text) buf ld (tr.map (shEv k))) := by
+  intro d
+  induction d with
+  | zero => intro text buf ld tr; exact Sim.fuel
+  | succ d ih =>
+    intro text buf ld tr
+    simp only [normAttrRec, shiftSpan_bytes]
+    exact normAttrLoop_sh T k txt txt' ents _ _ ih _ ⟨text.off, text.bytes⟩ buf ld tr
+
+theorem normalizeAttribute_sh (T : Tables) (k : Nat) (txt txt' : Bytes) (c : Ctx) (value : Span)
+    (hnz : NZ pos c) :
+    Sim (fun p => NZ pos p.1) (fun p => (shC k p.1, shiftStr k p.2)) (normalizeAttribute T txt c value)
+      (normalizeAttribute T txt' (shC k c) (shiftSpan k value)) := by
+  unfold normalizeAttribute
+  simp only [shiftSpan_bytes, shC_entities, shC_ld, shC_trace]
+  refine Sim.ite (fun _ => ?_) (fun _ => Sim.ok hnz rfl)
+  refine Sim.bind (normAttrRec_sh T k txt txt' c.entities depthFuel value {} c.ld c.trace)
+    (fun a _ _ => ?_)
+  obtain ⟨buf, ld, tr⟩ := a
+  dsimp only [shTr]
+  refine Sim.bind (f := fun b : Bytes => b) (I := fun _ => True) (fun a ha => ⟨trivial, ha⟩)
+    (fun out _ _ => ?_)
+  exact Sim.pure hnz rfl
+
+theorem processAttribute_sh (T : Tables) (k : Nat) (txt txt' : Bytes) (c : Ctx) (range : Range)
+    (qnameLen eqLen : Nat) (pfx loc value : Span) (hnz : NZ pos c) :
+    Sim (NZ pos) (shC k) (processAttribute T txt c range qnameLen eqLen pfx loc value)
+      (processAttribute T txt' (shC k c) (shiftRange k range) qnameLen eqLen (shiftSpan k pfx)
+        (shiftSpan k loc) (shiftSpan k value)) := by
+  unfold processAttribute
+  refine Sim.bind (normalizeAttribute_sh T k txt txt' c value hnz) (fun a _ h1 => ?_)
+  obtain ⟨c1, v⟩ := a
+  dsimp only at h1 ⊢
+  have hl : (shC k c1).log (.attrValue (shiftStr k v)) = shC k (c1.log (.attrValue v)) := rfl
+  rw [hl]
+  have h2 : NZ pos (c1.log (.attrValue v)) := h1
+  generalize c1.log (.attrValue v) = c2 at h2 ⊢
+  simp only [shiftSpan_bytes, shiftStr_bytes, shC_doc, shiftDoc_ns, exists_sh, shC_nsStartIdx,
+    shC_xmlDeclared]
+  refine Sim.ite (fun _ => ?_) (fun _ => ?_)
+  · refine Sim.ite (fun _ => Sim.errPos) (fun _ => ?_)
+    refine Sim.ite (fun _ => Sim.errPos) (fun _ => ?_)
+    refine Sim.ite (fun _ => Sim.errPos) (fun _ => ?_)
+    refine Sim.ite (fun _ => Sim.errPos) (fun _ => ?_)
+    refine Sim.bind (f := fun b : Bool => b) (I := fun _ => True) (fun a ha => ⟨trivial, ha⟩)
+      (fun ex _ _ => ?_)
+    refine Sim.ite (fun _ => Sim.errPos) (fun _ => ?_)
+    refine Sim.ite (fun _ => ?_) (fun _ => Sim.pure h2 rfl)
+    refine Sim.bind (pushNs_sh k c2.doc.ns (some loc) v h2.1) (fun ns _ hns => ?_)
+    exact Sim.pure ⟨hns, h2.2⟩ rfl
+  · refine Sim.ite (fun _ => ?_) (fun _ => ?_)
+    · refine Sim.ite (fun _ => Sim.errPos) (fun _ => ?_)
+      refine Sim.ite (fun _ => Sim.errPos) (fun _ => ?_)
+      refine Sim.bind (f := fun b : Bool => b) (I := fun _ => True) (fun a ha => ⟨trivial, ha⟩)
+        (fun ex _ _ => ?_)
+      refine Sim.ite (fun _ => Sim.errPos) (fun _ => ?_)
+      refine Sim.bind (pushNs_sh k c2.doc.ns none v h2.1) (fun ns _ hns => ?_)
+      exact Sim.pure ⟨hns, h2.2⟩ rfl
+    · refine Sim.pure h2 ?_
+      simp only [shC, List.map_append, List.map_cons, List.map_nil, shTA]
+
+/-! #### text -/
+
+theorem processCdata_sh (k : Nat) (c : Ctx) (text : Span) (range : Range) (hnz : NZ pos c) :
+    Sim (NZ pos) (shC k) (processCdata c text range)
+      (processCdata (shC k c) (shiftSpan k text) (shiftRange k range)) := by
+  unfold processCdata
+  simp only [shiftSpan_bytes]
+  exact Sim.ite (fun _ => appendText_sh k c (.borrowed text) range hnz)
+    (fun _ => appendText_sh k c (.owned _) range hnz)
+
+def shChunk (k : Nat) : NextChunk → NextChunk
+  | .byte c => .byte c
+  | .char c => .char c
+  | .text f => .text (shiftSpan k f)
+
+theorem parseNextChunk_sh (T : Tables) (k : Nat) (txt txt' : Bytes) (ents : List Entity) (s : Stream) :
+    OkTo (fun q => (sh k q.1, shChunk k q.2)) (parseNextChunk T txt ents s)
+      (parseNextChunk T txt' (ents.map (shEnt k)) (sh k s)) := by
+  obtain ⟨p, r⟩ := s
+  cases r with
+  | nil => exact Sim.panic
+  | cons c r =>
+    simp only [parseNextChunk, sh_rest, sh_pos]
+    refine Sim.ite (fun _ => ?_) (fun _ => OkTo.ok ?_)
+    · have hcr := consumeReference_sh T k txt txt' ⟨p, c :: r⟩
+      cases hc : Stream.consumeReference T txt ⟨p, c :: r⟩ with
+      | err e => exact Sim.err
+      | panic e => exact Sim.panic
+      | fuel => exact Sim.fuel
+      | ok q =>
+        obtain ⟨s1, ref⟩ := q
+        cases ref with
+        | none => exact Sim.errFrom
+        | some x =>
+          rw [hcr s1 x hc]
+          simp only [Res.bind_ok]
+          cases x with
+          | char ch => exact Sim.pure trivial rfl
+          | entity name =>
+            simp only [shRef, shiftSpan_bytes, findEntity_sh]
+            cases findEntity ents name.bytes with
+            | none => exact Sim.errFrom
+            | some ent => exact Sim.pure trivial rfl
+    · simp only [sh, shChunk, Nat.add_right_comm]
+
+/-- a builder step of the shifted run simulates the step of the original run -/
+def StepSh (k : Nat) (pos : Bool) (step step' : Token → Ctx → Res Ctx) : Prop :=
+  ∀ t c, NZ pos c → Sim (NZ pos) (shC k) (step t c) (step' (shTok k t) (shC k c))
+
+theorem feed_cons' (step : Token → Ctx → Res Ctx) (t : Token) (ts : List Token) (c : Ctx) :
+    feed step (t :: ts) c = (step t c >>= fun c' => feed step ts c') := by
+  simp only [feed]; cases step t c <;> rfl
+
+theorem feed_sh {k : Nat} {step step' : Token → Ctx → Res Ctx} (hs : StepSh k pos step step') :
+    ∀ (toks : List Token) (c : Ctx), NZ pos c →
+      Sim (NZ pos) (shC k) (feed step toks c) (feed step' (toks.map (shTok k)) (shC k c)) := by
+  intro toks
+  induction toks with
+  | nil => intro c hnz; exact Sim.ok hnz rfl
+  | cons t ts ih =>
+    intro c hnz
+    rw [List.map_cons, feed_cons', feed_cons']
+    exact Sim.bind (hs t c hnz) (fun c1 _ h1 => ih c1 h1)
+
+theorem runTokens_sh {α β} {k : Nat} {step step' : Token → Ctx → Res Ctx} (hs : StepSh k pos step step')
+    (m : List Token × Res α) (m' : List Token × Res β) (f : α → β) (hm : SimT k f m m') (c : Ctx)
+    (hnz : NZ pos c) :
+    Sim (NZ pos) (shC k) (runTokens step m.1 m.2 c) (runTokens step' m'.1 m'.2 (shC k c)) := by
+  intro c1 h
+  unfold runTokens at h
+  cases hf : feed step m.1 c with
+  | ok c' =>
+    rw [hf] at h
+    cases hstop : m.2 with
+    | ok a =>
+      rw [hstop] at h
+      simp only [Res.ok.injEq] at h
+      subst h
+      rw [hm a hstop]
+      obtain ⟨hi, hf'⟩ := feed_sh hs m.1 c hnz c' hf
+      refine ⟨hi, ?_⟩
+      simp only [runTokens, hf']
+    | err e => rw [hstop] at h; cases h
+    | panic e => rw [hstop] at h; cases h
+    | fuel => rw [hstop] at h; cases h
+  | err e => rw [hf] at h; cases h
+  | panic e => rw [hf] at h; cases h
+  | fuel => rw [hf] at h; cases h
+
+theorem flushBuffer_sh (k : Nat) (c : Ctx) (buf : TextBuffer) (range : Range) (hnz : NZ pos c) :
+    Sim (NZ pos) (shC k) (flushBuffer c buf range) (flushBuffer (shC k c) buf (shiftRange k range)) := by
+  unfold flushBuffer
+  refine Sim.ite (fun _ => ?_) (fun _ => Sim.ok hnz rfl)
+  refine Sim.bind (f := fun b : Bytes => b) (I := fun _ => True) (fun a ha => ⟨trivial, ha⟩)
+    (fun out _ _ => ?_)
+  exact appendText_sh k c (.owned out) range hnz
+
+theorem shTag_default (k : Nat) : shTag k {} = {} := by
+  simp [shTag]
+
+theorem span_stop_sh (k : Nat) (f : Span) : (shiftSpan k f).stop = f.stop + k := by
+  simp only [Span.stop, shiftSpan]; omega
+
+theorem processTextLoop_sh (T : Tables) {k : Nat} {txt txt' : Bytes} (hsl : SliceSh k txt txt')
+    {lower lower' : Token → Ctx → Res Ctx} (hl : StepSh k pos lower lower') (range : Range) :
+    ∀ (fuel : Nat) (s : Stream) (buf : TextBuffer) (c : Ctx), NZ pos c →
+      Sim (fun q => NZ pos q.2) (fun q => (q.1, shC k q.2))
+        (processTextLoop T txt lower range fuel s buf c)
+        (processTextLoop T txt' lower' (shiftRange k range) fuel (sh k s) buf (shC k c)) := by
+  intro fuel
+  induction fuel with
+  | zero => intro s buf c hnz; exact Sim.fuel
+  | succ fuel ih =>
+    intro s buf c hnz
+    simp only [processTextLoop]
+    have hae : (sh k s).atEnd = s.atEnd := rfl
+    rw [hae]
+    refine Sim.ite (fun _ => Sim.ok hnz rfl) (fun _ => ?_)
+    refine Sim.bind (parseNextChunk_sh T k txt txt' c.entities s) (fun a _ _ => ?_)
+    obtain ⟨s1, chunk⟩ := a
+    cases chunk with
+    | byte b => exact ih _ _ _ hnz
+    | char ch =>
+      simp only [shChunk, shC_ld]
+      exact Sim.ite (fun _ => ih _ _ _ hnz) (fun _ => ih _ _ _ hnz)
+    | text fragment =>
+      simp only [shChunk]
+      refine Sim.bind (flushBuffer_sh k c buf range hnz) (fun c1 _ hnz1 => ?_)
+      simp only [shC_ld]
+      cases c1.ld.incRefs with
+      | none => exact Sim.errAt
+      | some ld1 =>
+        dsimp only [Ctx.log]
+        cases ld1.incDepth with
+        | none => exact Sim.errAt
+        | some ld2 =>
+          dsimp only
+          rw [span_stop_sh]
+          have hm := tokenizeContent_sh T hsl fragment.off fragment.stop
+          refine Sim.bind (runTokens_sh hl _ _ (sh k) hm _ ?_) (fun c2 _ h2 => ?_)
+          · exact hnz1
+          refine Sim.ite (fun _ => Sim.err) (fun _ => ?_)
+          refine ih _ _ _ ?_
+          exact h2
+
+theorem processText_sh (T : Tables) {k : Nat} {txt txt' : Bytes} (hsl : SliceSh k txt txt')
+    {lower lower' : Token → Ctx → Res Ctx} (hl : StepSh k pos lower lower') (c : Ctx) (text : Span)
+    (range : Range) (hnz : NZ pos c) :
+    Sim (NZ pos) (shC k) (processText T txt lower c text range)
+      (processText T txt' lower' (shC k c) (shiftSpan k text) (shiftRange k range)) := by
+  unfold processText
+  simp only [shiftSpan_bytes]
+  refine Sim.ite (fun _ => appendText_sh k c (.borrowed text) range hnz) (fun _ => ?_)
+  have ho : Stream.ofRange txt' (shiftRange k range).1 (shiftRange k range).2 =
+      sh k (Stream.ofRange txt range.1 range.2) := ofRange_sh hsl range.1 range.2
+  rw [ho]
+  refine Sim.bind (processTextLoop_sh T hsl hl range _ _ _ c hnz) (fun a _ h1 => ?_)
+  obtain ⟨buf, c1⟩ := a
+  exact flushBuffer_sh k c1 buf range h1
+
+theorem tokenStep_sh (T : Tables) {k : Nat} {txt txt' : Bytes} (hsl : SliceSh k txt txt')
+    {lower lower' : Token → Ctx → Res Ctx} (hl : StepSh k pos lower lower') :
+    StepSh k pos (tokenStep T txt lower) (tokenStep T txt' lower') := by
+  intro t c hnz
+  unfold tokenStep
+  dsimp only
+  have hlog : (shC k c).log (.token (shTok k t)) = shC k (c.log (.token t)) := rfl
+  rw [hlog]
+  have hnz' : NZ pos (c.log (.token t)) := hnz
+  generalize c.log (.token t) = c' at hnz' ⊢
+  cases t with
+  | pi target value range =>
+    simp only [shTok]
+    refine Sim.bind (resetAfterText_sh k c' hnz') (fun c1 _ h1 => ?_)
+    refine Sim.bind (appendNode_sh k c1 (.pi target value) range rfl h1) (fun a _ h2 => ?_)
+    exact Sim.pure h2 rfl
+  | comment text range =>
+    simp only [shTok]
+    refine Sim.bind (resetAfterText_sh k c' hnz') (fun c1 _ h1 => ?_)
+    refine Sim.bind (appendNode_sh k c1 (.comment (.borrowed text)) range rfl h1) (fun a _ h2 => ?_)
+    exact Sim.pure h2 rfl
+  | entityDecl name value =>
+    simp only [shTok]
+    refine Sim.pure hnz' ?_
+    simp only [shC, List.map_append, List.map_cons, List.map_nil, shEnt]
+  | elementStart pfx loc start =>
+    simp only [shTok, shiftSpan_bytes]
+    refine Sim.bind (resetAfterText_sh k c' hnz') (fun c1 _ h1 => ?_)
+    refine Sim.ite (fun _ => Sim.errPos) (fun _ => Sim.pure h1 ?_)
+    have hne : (⟨pfx.bytes, loc.bytes, loc, start, start + 1⟩ : TagName) ≠ {} := by
+      intro h
+      have := congrArg TagName.prefixPos h
+      simp at this
+    simp only [shC, shTag, hne, ↓reduceIte]
+    congr 2
+    omega
+  | «attribute» range qnameLen eqLen pfx loc value =>
+    exact processAttribute_sh T k txt txt' c' range qnameLen eqLen pfx loc value hnz'
+  | elementEnd e range =>
+    simp only [shTok]
+    refine Sim.bind (resetAfterText_sh k c' hnz') (fun c1 _ h1 => ?_)
+    exact processElement_sh k txt txt' c1 e range h1
+  | text text range => exact processText_sh T hsl hl c' text range hnz'
+  | cdata text range => exact processCdata_sh k c' text range hnz'
+
+theorem token_sh (T : Tables) {k : Nat} {txt txt' : Bytes} (hsl : SliceSh k txt txt') :
+    ∀ d, StepSh k pos (token T txt d) (token T txt' d) := by
+  intro d
+  induction d with
+  | zero => intro t c _; exact Sim.fuel
+  | succ d ih => exact tokenStep_sh T hsl ih
+
+/-! #### the final checks read links and kinds only -/
+
+theorem getNodeUnwrap_sh (k : Nat) (b : Bool) (d : Doc) (i : Nat) :
+    Api.getNodeUnwrap (shiftDoc k b d) i = Res.mapOk (shiftNode k b) (Api.getNodeUnwrap d i) := by
+  unfold Api.getNodeUnwrap
+  simp only [shiftDoc_nodes, Array.getElem?_map]
+  cases d.nodes[i]? <;> rfl
+
+theorem follow_sh (k : Nat) (b : Bool) (d : Doc) (l : Option Nat) :
+    Api.follow (shiftDoc k b d) l = Api.follow d l := by
+  unfold Api.follow
+  simp only [shiftDoc_nodes, Array.size_map]
+
+theorem getNode_bind_sh {β} (k : Nat) (b : Bool) (d : Doc) (i : Nat) (k0 k1 : NodeData → Res β)
+    (hk : ∀ n, k0 (shiftNode k b n) = k1 n) :
+    (Api.getNodeUnwrap (shiftDoc k b d) i >>= k0) = (Api.getNodeUnwrap d i >>= k1) := by
+  rw [getNodeUnwrap_sh]
+  cases Api.getNodeUnwrap d i <;> simp [Res.mapOk, hk]
+
+theorem lastChild_sh (k : Nat) (b : Bool) (d : Doc) (i : Nat) :
+    Api.lastChild (shiftDoc k b d) i = Api.lastChild d i := by
+  unfold Api.lastChild
+  exact getNode_bind_sh k b d i _ _ (fun n => follow_sh k b d _)
+
+theorem firstChild_sh (k : Nat) (b : Bool) (d : Doc) (i : Nat) :
+    Api.firstChild (shiftDoc k b d) i = Api.firstChild d i := by
+  unfold Api.firstChild
+  refine getNode_bind_sh k b d i _ _ (fun n => ?_)
+  simp only [shiftNode_lastChild, shiftDoc_nodes, Array.size_map]
+
+theorem nextSibling_sh (k : Nat) (b : Bool) (d : Doc) (i : Nat) :
+    Api.nextSibling (shiftDoc k b d) i = Api.nextSibling d i := by
+  unfold Api.nextSibling
+  refine getNode_bind_sh k b d i _ _ (fun n => ?_)
+  simp only [shiftNode_nextSubtree]
+  cases n.nextSubtree with
+  | none => rfl
+  | some j => exact getNode_bind_sh k b d j _ _ (fun m => rfl)
+
+theorem kindOf_sh (k : Nat) (b : Bool) (d : Doc) (i : Nat) :
+    Api.kindOf (shiftDoc k b d) i = Res.mapOk (shiftKind k) (Api.kindOf d i) := by
+  unfold Api.kindOf
+  rw [getNodeUnwrap_sh]
+  cases Api.getNodeUnwrap d i <;> rfl
+
+theorem isElement_sh (k : Nat) (b : Bool) (d : Doc) (i : Nat) :
+    Api.isElement (shiftDoc k b d) i = Api.isElement d i := by
+  unfold Api.isElement
+  rw [kindOf_sh]
+  cases Api.kindOf d i <;> simp [Res.mapOk]
+
+theorem children_sh (k : Nat) (b : Bool) (d : Doc) (i : Nat) :
+    Api.children (shiftDoc k b d) i = Api.children d i := by
+  unfold Api.children
+  simp only [firstChild_sh, lastChild_sh]
+
+theorem childrenNext_sh (k : Nat) (b : Bool) (d : Doc) (it : Api.ChildrenIt) :
+    it.next (shiftDoc k b d) = it.next d := by
+  unfold Api.ChildrenIt.next
+  simp only [nextSibling_sh]
+
+theorem childrenList_sh (k : Nat) (b : Bool) (d : Doc) (fuel : Nat) (it : Api.ChildrenIt) :
+    Api.childrenList (shiftDoc k b d) fuel it = Api.childrenList d fuel it := by
+  induction fuel generalizing it with
+  | zero => rfl
+  | succ fuel ih =>
+    unfold Api.childrenList
+    simp only [childrenNext_sh, ih]
+
+theorem findElement_sh (k : Nat) (b : Bool) (d : Doc) (l : List Nat) :
+    Api.findElement (shiftDoc k b d) l = Api.findElement d l := by
+  induction l with
+  | nil => rfl
+  | cons j r ih =>
+    unfold Api.findElement
+    simp only [isElement_sh, ih]
+
+theorem rootHasElement_sh (k : Nat) (b : Bool) (d : Doc) :
+    rootHasElement (shiftDoc k b d) = rootHasElement d := by
+  unfold rootHasElement Api.fuelN
+  simp only [children_sh, childrenList_sh, findElement_sh, shiftDoc_nodes, Array.size_map]
+
+/-! ### `parse` -/
+
+theorem finish_sh (k : Nat) (c : Ctx) : OkTo (shC k) (finish c) (finish (shC k c)) := by
+  unfold finish
+  simp only [shC_doc, rootHasElement_sh, shC_parentPrefixes]
+  refine Sim.bind (f := fun b : Bool => b) (I := fun _ => True) (fun a ha => ⟨trivial, ha⟩)
+    (fun has _ _ => ?_)
+  refine Sim.ite (fun _ => Sim.err) (fun _ => ?_)
+  refine Sim.ite (fun _ => Sim.err) (fun _ => Sim.pure trivial rfl)
+
+theorem initCtx_sh (k : Nat) (txt txt' : Bytes) (hlen : txt'.length = txt.length + k) (opt : Opt) :
+    Sim (NZ opt.positions) (shC k) (initCtx txt opt) (initCtx txt' opt) := by
+  have hns : ({} : Namespaces).pushNs (some ⟨0, Lit.xml⟩) (.borrowed ⟨0, nsXmlUri⟩) =
+      .ok { values := #[⟨some ⟨0, Lit.xml⟩, .borrowed ⟨0, nsXmlUri⟩⟩], treeOrder := #[0],
+            sortedOrder := #[0] } := by
+    simp [Namespaces.pushNs, Namespaces.search, Namespaces.searchGo, bind, Res.bind,
+      Array.insertIdxIfInBounds]
+  unfold initCtx
+  rw [hns, hlen]
+  simp only [Res.bind_ok]
+  refine Sim.pure ⟨by simp, rfl⟩ ?_
+  cases hp : opt.positions <;>
+    simp [shC, shiftDoc, shiftNode, rootNode, shTag_default, shiftNsValues, shNss, shiftKind]
+
+theorem parseCtx_sh (T : Tables) (hsp : byteIsSpace T 32 = true) (txt : Bytes) (opt : Opt) (k d : Nat)
+    (hbom : Stream.startsWith ⟨0, txt⟩ Lit.bom = false)
+    (hdecl : Stream.startsWith ⟨0, txt⟩ Lit.xmlDecl = false) :
+    Sim (NZ opt.positions) (shC k) (parseCtx T txt d opt)
+      (parseCtx T (List.replicate k 32 ++ txt) d opt) := by
+  unfold parseCtx
+  refine Sim.bind (initCtx_sh k txt _ (by simp; omega) opt) (fun c0 _ h0 => ?_)
+  dsimp only
+  have hm : SimT k (fun u : Unit => u) (tokenize T txt opt.allowDtd)
+      (tokenize T (List.replicate k 32 ++ txt) opt.allowDtd) :=
+    parseDocument_ws T k txt hsp hbom hdecl opt.allowDtd
+  refine Sim.bind (runTokens_sh (token_sh T (sliceSh_ws k txt) d) _ _ _ hm c0 h0) (fun c1 _ h1 => ?_)
+  exact (finish_sh k c1).weaken (fun c2 hc2 _ => by
+    unfold finish at hc2
+    rw [Res.bind_eq_ok] at hc2
+    obtain ⟨has, _, hc2⟩ := hc2
+    split at hc2
+    · cases hc2
+    · split at hc2
+      · cases hc2
+      · simp only [pure, Res.ok.injEq] at hc2
+        subst hc2
+        exact h1)
+
 end Shift
 
+open Shift in
 /-- **Shift equivariance of accepted documents** (every input that does not begin with a BOM or an
 XML declaration — those must come first —, every `k`, every option value): -/
 theorem parse_shift (T : Tables) (hsp : byteIsSpace T 32 = true) (txt : Bytes) (opt : Opt) (d : Doc)
@@ -1273,6 +2320,14 @@ theorem parse_shift (T : Tables) (hsp : byteIsSpace T 32 = true) (txt : Bytes) (
     (hdecl : Stream.startsWith ⟨0, txt⟩ Lit.xmlDecl = false)
     (h : parse T txt opt = .ok d) :
     parse T (List.replicate k 32 ++ txt) opt = .ok (shiftDoc k opt.positions d) := by
-  sorry
+  unfold parse at h ⊢
+  rw [Res.bind_eq_ok] at h
+  obtain ⟨c, hc, h⟩ := h
+  simp only [pure, Res.ok.injEq] at h
+  subst h
+  obtain ⟨hinv, hc'⟩ := parseCtx_sh T hsp txt opt k depthFuel hbom hdecl c hc
+  rw [hc']
+  simp only [Res.bind_ok, pure, Res.ok.injEq, shC_doc]
+  rw [hinv.2]
 
 end Rox.Lemmas
